@@ -50,7 +50,9 @@ Inductive sys :=
 | SysFchmod (i : ino) (m : N)            (* fchmod(fd of i, m) *)
 | SysClose (i : ino)                     (* close(fd of i) *)
 | SysUnlink (n : name)                   (* unlinkat(n) *)
-| SysRename (a b : name).                (* renameat(a, b) *)
+| SysRename (a b : name)                 (* renameat(a, b) *)
+| SysStat (follow : bool) (n : name).    (* newfstatat(n, follow / AT_SYMLINK_NOFOLLOW): mutates nothing; in the
+                                            trace so that the recorded call sequence can be compared *)
 
 Definition apply1 (x : sys) (s : fs) : fs :=
   match x with
@@ -66,6 +68,7 @@ Definition apply1 (x : sys) (s : fs) : fs :=
   | SysRename a b => match ents s a with
                      | Some e => mkFS (set (set (ents s) a None) b (Some e)) (inos s)
                      | None => s end
+  | SysStat _ _ => s
   end.
 Definition apply_all (l : list sys) (s : fs) : fs := fold_left (fun s x => apply1 x s) l s.
 
@@ -101,7 +104,7 @@ Fixpoint exec1 (s : fstmt) (m : mstate) : mstate :=
   | SIfStat follow b =>
       if fl_stat fl then m
       else match stat_mode follow (cur m) (path e) with
-           | Some md => seq b (set_fi m (Some md))
+           | Some md => seq b (set_fi (emit m (SysStat follow (path e))) (Some md))
            | None => m end
   | SChmodStat => match fi m with
                   | Some md => if fl_chmod fl then set_err m true else emit m (SysFchmod (tino e) md)
